@@ -7,7 +7,6 @@
 //! Exit codes: 0 property held on everything explored; 1 violation (a line
 //! `VIOLATION property=<id> replay=<path>` is printed); 2 harness error.
 
-mod common;
 mod engine;
 mod mgen;
 mod mharness;
@@ -15,11 +14,11 @@ mod moracle;
 mod mrun;
 mod mtypes;
 mod mworld;
-mod rng;
 
 use std::path::PathBuf;
 
-use common::*;
+use simcore::common::*;
+use simcore::rng;
 use serde_json::json;
 
 fn verif_dir() -> PathBuf {
